@@ -207,6 +207,9 @@ type c13Case struct {
 	Aliases   bool       `json:"aliases"` // use the short flag names
 	NoSource  bool       `json:"no_source"`
 	Tables    []c13Table `json:"tables"`
+	// finding F24: after the source is written the geometry cell of the first row of this table (index+1; 0 = none) is
+	// set to NULL (a feature without geometry, which a GeoPackage may hold)
+	NullGeom int `json:"null_geometry_in_table,omitempty"`
 	Pre       []c13Pre   `json:"pre"`
 	Race      bool       `json:"race"` // run the -race build
 	// files NEXT to the targets whose names begin with a target's name ("out_5.gpkg.keep"): not GeoPackages, not the
@@ -1048,6 +1051,13 @@ func runC13Case(scratch, bin, binRace string, k c13Case) (run c13Run, err error)
 				return
 			}
 		}
+		if k.NullGeom > 0 && k.NullGeom <= len(k.Tables) {
+			t := k.Tables[k.NullGeom-1].Spec
+			if _, err = h.Exec(fmt.Sprintf(`UPDATE %s SET %s = NULL WHERE rowid = (SELECT min(rowid) FROM %s)`, qid(t.Name), qid(t.GCol), qid(t.Name))); err != nil {
+				h.Close()
+				return
+			}
+		}
 		h.Close()
 	}
 	for _, p := range k.Pre {
@@ -1677,6 +1687,24 @@ func runC13(c *hc.Ctx) error {
 			k.Race = false
 			cases = append(cases, k)
 		}
+		// finding F24 (known, not repaired): a source row whose geometry cell is NULL
+		for i := 0; i < c.N(4, 12); i++ {
+			k := genC13Case(c.Rng, len(cases), "fresh")
+			for ti, t := range k.Tables {
+				if len(t.Feats) > 0 {
+					k.NullGeom = ti + 1
+					break
+				}
+			}
+			if k.NullGeom > 0 {
+				k.Race = false
+				k.Ignore = true // no polygon is refused as outside the grid: the run would succeed but for the NULL cell
+				if e, err := c13Expected(k); err != nil || e.Panics {
+					continue
+				}
+				cases = append(cases, k)
+			}
+		}
 		// some ordinary cases through the race build as well
 		for i := range cases {
 			if i%10 == 3 {
@@ -1815,10 +1843,17 @@ func runC13(c *hc.Ctx) error {
 			if strings.Contains(k.Target, "?") && k.TmsOK {
 				v.KnownFinding = "F25"
 			}
+			if k.NullGeom > 0 && k.TmsOK && strings.Contains(r.run.Stderr, "interface conversion: interface {} is nil, not []uint8") {
+				v.KnownFinding = "F24"
+			}
 			c.Violate(v)
 		}
 		if strings.Contains(k.Target, "?") {
 			c.Count("target path with a question mark (finding F25): oracle only")
+			continue
+		}
+		if k.NullGeom > 0 {
+			c.Count(fmt.Sprintf("source row with a NULL geometry cell (finding F24): oracle only; exit status %d", r.run.Exit))
 			continue
 		}
 		// correspondence: small cases only (the hazard class is oracle-only)
